@@ -226,7 +226,7 @@ class VersionGen:
     def __init__(self, rng: random.Random, opset: Optional[int] = None, placement: Optional[str] = None,
                  second_domain: Optional[str] = None, sensitive: Optional[str] = None):
         self.rng = rng
-        self.opset = opset or rng.choice([11, 12, 13, 14, 15, 16, 16, 17, 17, 17])
+        self.opset = opset or rng.choice([11, 12, 12, 13, 14, 15, 16, 16, 17, 17, 17])
         # body-only: the top level holds only operators that are the same in every opset from the model's on
         self.placement = placement or rng.choice(["body-only", "body-only", "body-only", "top", "both"])
         self.second = second_domain if second_domain is not None else rng.choice(["", "", "", "ml", "ms", "ml+ms"])
@@ -244,8 +244,11 @@ class VersionGen:
             mean = [n for n in names if UNITS[n][2] == "meaning"]
             comp = [n for n in names if UNITS[n][2] == "compat"]
             r = self.rng.random()
-            pool = mean if (mean and r < 0.3) else (comp if r > 0.9 else sig)
-            return self.rng.choice(pool)
+            pool = mean if (mean and r < 0.45) else (comp if r > 0.9 else sig)
+            name = self.rng.choice(pool)
+            if name.startswith("Hardmax") and self.rng.random() < 0.6:  # known converter defect: keep it rare
+                name = self.rng.choice([n for n in pool if not n.startswith("Hardmax")])
+            return name
         return self.rng.choice(units_for(self.opset, ("plain",)))
 
     def chain(self, x: str, outer: list[str], n: int, sensitive: bool, depth: int, want_depth: int) -> tuple[list, str]:
@@ -360,7 +363,7 @@ class VersionGen:
         if "ml" in self.second:
             un, cur = ml_unit(cur, nm, rng)
             nodes += un
-            imports.append(H.make_operatorsetid("ai.onnx.ml", rng.choice([1, 2])))
+            imports.append(H.make_operatorsetid("ai.onnx.ml", rng.choice([1, 1, 2, 2, 3, 5])))
             self.features.add("second-domain:ai.onnx.ml")
         if "ms" in self.second:
             un, cur = ms_unit(cur, nm, rng)
@@ -371,6 +374,17 @@ class VersionGen:
         if rng.random() < 0.3:
             outs.append(rng.choice(ins))
             self.features.add("output-is-input")
+        if rng.random() < 0.3:
+            # an import no node uses, with a version that looks like a default-domain opset (valid; the built
+            # model imports it too) - the source / target version must be read off the DEFAULT domain only
+            dom = rng.choice(["custom.unused", "ai.onnx.training"] + ([] if "ml" in self.second else ["ai.onnx.ml"]))
+            ver = {"ai.onnx.training": 1, "ai.onnx.ml": rng.choice([1, 3, 5])}.get(dom) or rng.choice([14, 17, 18, 19, 20, 21, 30])
+            imports.append(H.make_operatorsetid(dom, ver))
+            self.features.add("unused-import")
+        if len(imports) > 1 and rng.random() < 0.5:
+            rng.shuffle(imports)
+            if imports[0].domain != "":
+                self.features.add("default-domain-not-first-import")
         g = H.make_graph(nodes, "g", inputs, [_f(o) for o in dict.fromkeys(outs)], initializer=inits)
         m = H.make_model(g, opset_imports=imports, ir_version=7 if self.opset < 15 else 8)
         self.features.add(f"opset-{self.opset}")
